@@ -200,7 +200,9 @@ def run_case(case, ch: Choices) -> RunResult:
             if not spart:
                 continue
             root_b = os.path.join(base, "b%d" % pi)
-            mb = worlds.materialize(world, root_b, spart, None, creation_order_seed=ch.draw("lay.creation", 2 ** 16))
+            # the operations stay in one file: how *they* are split legitimately reorders the client's methods
+            mb = worlds.materialize(world, root_b, spart, None, creation_order_seed=ch.draw("lay.creation", 2 ** 16),
+                                    tail_seed=ch.draw("lay.tails", 2 ** 16))
             enum_seed = ch.draw("lay.enum", 2 ** 16)
             rb = genrun.run_child(root_b, mb["argv"], mb["targets"], hashseed=ch.pick("env.hs", [0, 1, 2]), enum_seed=enum_seed)
             if rb.get("harness_failure"):
